@@ -437,16 +437,7 @@ func (e *Engine) step(s *State) []*State {
 		f.env[x] = TupleV{boolT(true), kv, e.mgetVal(s, m, k)}
 	case *ssa.TypeAssert:
 		iv := e.get(s, f, x.X).(IfaceV)
-		pt, ok := x.AssertedType.Underlying().(*types.Pointer)
-		if !ok || x.CommaOk {
-			panic("typeassert form unsupported")
-		}
-		e.oblig(s, "safe.assert-nonnil", not(iv.IsNil))
-		if pv, isP := iv.V.(PtrV); isP { // concrete value boxed by MakeInterface
-			f.env[x] = pv
-		} else {
-			f.env[x] = e.ptrFromRef(iv.V.(Term), pt.Elem()) // dynamic type assumed (spike)
-		}
+		f.env[x] = e.typeAssert(s, iv, x)
 	case *ssa.MakeInterface:
 		iv := IfaceV{IsNil: boolT(false), V: e.get(s, f, x.X), Dyn: x.X.Type()}
 		if pv, ok := iv.V.(PtrV); ok && !pv.Nil && pv.Kind == "struct" {
@@ -536,6 +527,64 @@ func (e *Engine) step(s *State) []*State {
 		e.pending = nil
 	}
 	return forks
+}
+
+// typeAssert models x.(T) and x.(T) with comma-ok. A boxed value of known dynamic type is decided statically;
+// an interface value of unknown origin carries an uninterpreted type tag typeof(ref).
+func (e *Engine) typeAssert(s *State, iv IfaceV, x *ssa.TypeAssert) Val {
+	at := x.AssertedType
+	var ok Term
+	var val Val
+	_, toIface := at.Underlying().(*types.Interface)
+	switch {
+	case iv.Dyn != nil: // boxed by MakeInterface on this path
+		match := false
+		if toIface {
+			match = types.Implements(iv.Dyn, at.Underlying().(*types.Interface))
+		} else {
+			match = types.Identical(iv.Dyn, at)
+		}
+		ok = and(not(iv.IsNil), boolT(match))
+		if match {
+			if toIface {
+				val = iv
+			} else {
+				val = iv.V
+			}
+		} else {
+			val = e.zero(s, at)
+		}
+	case toIface: // unknown dynamic type asserted to another interface: undecided, result keeps the identity
+		okc := e.declare(s, "assertok", "Bool")
+		ok = and(not(iv.IsNil), okc)
+		val = iv
+	default:
+		pt, isPtr := at.Underlying().(*types.Pointer)
+		if !isPtr {
+			panic("type assertion of an unknown dynamic value to non-pointer type " + at.String())
+		}
+		ref := e.ifaceRef(iv)
+		s.defs = append(s.defs, "(declare-fun typeof (Ref) Int)")
+		ok = and(not(iv.IsNil), eq(app("typeof", "Int", ref), Term{S: fmt.Sprint(e.typeID(at)), Sort: "Int", C: big.NewInt(int64(e.typeID(at)))}))
+		val = e.ptrFromRef(ref, pt.Elem())
+	}
+	if x.CommaOk {
+		return TupleV{val, ok}
+	}
+	e.oblig(s, "safe.assert", ok)
+	return val
+}
+
+func (e *Engine) typeID(t types.Type) int {
+	if e.typeIDs == nil {
+		e.typeIDs = map[string]int{}
+	}
+	k := t.String()
+	if id, ok := e.typeIDs[k]; ok {
+		return id
+	}
+	e.typeIDs[k] = len(e.typeIDs) + 1
+	return e.typeIDs[k]
 }
 
 // learn records equalities var = const for constant propagation along the path.
@@ -902,6 +951,21 @@ func (e *Engine) call(s *State, f *Frame, x *ssa.Call) bool {
 		}
 		f.env[x] = r
 		return true
+	case name == "vsSameBytes": // same length and contents; identical views of one array are recognised without a quantifier
+		a, b := args[0].(SliceV), args[1].(SliceV)
+		same := and(eq(a.Ref, b.Ref), eq(a.Off, b.Off))
+		so := elemSort(a.Elem)
+		nm := "M_" + sortTag(so)
+		e.heapArr(s, nm, refArrSort(arrSort(so)))
+		q := e.fresh("q")
+		qt := Term{S: q, Sort: ISort()}
+		s.quant++
+		ea := e.read2(s, nm, a.Ref, iadd(a.Off, qt), arrSort(so), so)
+		eb := e.read2(s, nm, b.Ref, iadd(b.Off, qt), arrSort(so), so)
+		s.quant--
+		all := Term{S: fmt.Sprintf("(forall ((%s %s)) %s)", q, ISort(), implies(and(ile(intT(0), qt), ilt(qt, a.Len)), eq(ea, eb)).S), Sort: "Bool"}
+		f.env[x] = e.name(s, and(eq(a.Len, b.Len), or(same, all)))
+		return true
 	case name == "vsSameMap":
 		f.env[x] = eq(args[0].(MapV).Ref, args[1].(MapV).Ref)
 		return true
@@ -987,6 +1051,15 @@ func (e *Engine) call(s *State, f *Frame, x *ssa.Call) bool {
 		f.env[x] = IfaceV{IsNil: boolT(false)}
 		return true
 	}
+	if c := e.contracts[fn.String()]; c != nil && s.spec == 0 {
+		if r := e.callModular(s, c, args); r != nil {
+			f.env[x] = r
+		}
+		return true
+	}
+	if len(fn.Blocks) == 0 && fn.Pkg != nil && inlinablePkg(fn.Pkg.Pkg.Path()) {
+		fn.Pkg.Build() // bodies of dependencies are built on demand
+	}
 	if len(fn.Blocks) == 0 {
 		panic("call to function without body/stub: " + fn.String())
 	}
@@ -1022,6 +1095,9 @@ func (e *Engine) quant(s *State, forall bool, lo, hi Term, cl FuncV) Term {
 	s.quant--
 	rng := and(ile(lo, Term{S: bv, Sort: ISort(), C: nil}), ilt(Term{S: bv, Sort: ISort(), C: nil}, hi))
 	var q Term
+	if forall && body.C != nil && body.C.Sign() != 0 {
+		return boolT(true)
+	}
 	if forall {
 		q = Term{S: fmt.Sprintf("(forall ((%s %s)) %s)", bv, ISort(), implies(rng, body).S), Sort: "Bool", C: nil}
 	} else {
@@ -1196,4 +1272,17 @@ func (e *Engine) runPar(init *State, base int) []*State {
 		panic(failure)
 	}
 	return fin
+}
+
+// inlinablePkg: callees from the repository itself and from a short allow-list of pure std packages are inlined
+// from their own SSA; everything else needs a stub.
+func inlinablePkg(path string) bool {
+	if strings.HasPrefix(path, "github.com/emitter-io/emitter/") {
+		return true
+	}
+	switch path {
+	case "encoding/binary", "math/bits", "bytes", "unicode/utf8":
+		return true
+	}
+	return false
 }
